@@ -1123,6 +1123,42 @@ EXTRA_NO_EXCEPTION = [
 ]
 
 
+@mirror("generated")
+def _generated(model, extra):
+    """bounded stand-in: schema-generated programs of native/gen.py for one trait (cross products of operators, signs,
+    aggregate functions, tuple shapes ...), optimised with that trait only and compared with clingo on answer sets and
+    costs.  A source program clingo rejects is skipped (not a test)."""
+    from native.gen import sample
+    from native.witnesses import models, optimise
+
+    trait = extra["trait"]
+    n = int(extra.get("n", 0))  # 0: every generated program (a few hundred per trait, 10-25 s)
+    progs = sample(trait, n, int(extra.get("seed", 0)))
+    problems, done, skipped = [], 0, 0
+    for prg, factsets in progs:
+        try:
+            src = [models(prg, f) for f in factsets]
+        except RuntimeError:
+            skipped += 1
+            continue
+        try:
+            new = optimise(prg, [trait])
+        except Exception as e:  # pylint: disable=broad-except
+            problems.append({"program": prg, "traits": [trait], "exception": repr(e)})
+            continue
+        for f, a in zip(factsets, src):
+            done += 1
+            try:
+                b = models(new, f)
+            except RuntimeError as e:
+                problems.append({"program": prg, "facts": f, "optimised": new, "error": "the result does not ground: " + repr(e)})
+                break
+            if a != b:
+                problems.append({"program": prg, "traits": [trait], "facts": f, "optimised": new, "source_answer_sets": len(a), "result_answer_sets": len(b), "first_difference": [x for x in a if x not in b][:1] + [x for x in b if x not in a][:1]})
+                break
+    return {"confirmed": bool(problems), "bounded": True, "bound": f"{done} (program, instance) pairs from {len(progs)} schema-generated programs of native/gen.py[{trait}] ({skipped} rejected by clingo and skipped)", "problems": problems[:2]}
+
+
 @mirror("corpus_no_exception")
 def _corpus_no_exception(model, extra):
     """bounded stand-in for C03: optimize returns on every corpus program under each single trait, `default` and `all`"""
